@@ -194,6 +194,82 @@ Proof.
   unfold same_but_dz. injection EXYZ as E1 E2 E3. repeat split; assumption.
 Qed.
 
+(* ---- there and back: the matrix returns to itself (canonical start, turning angle not the half turn) ---- *)
+Lemma turn_to_own_pivot h : canonical kappa h -> turn h (h_x h, h_y h, h_z h) = 0.
+Proof.
+  intro Hc. pose proof (pivot_identity atan2 A2 kappa tanl Hk h Hc) as Id.
+  assert (EP : h_phi0 (move atan2 kappa tanl h (h_x h, h_y h, h_z h)) = h_phi0 h) by (rewrite Id; reflexivity).
+  destruct h as [dr phi0 dz x0 y0 z0]. unfold turn. cbn [move h_dr h_phi0 h_dz h_x h_y h_z] in *.
+  destruct (dphi_cong atan2 dr phi0 kappa dz tanl x0 y0 z0 x0 y0 z0) as [k Hk'].
+  pose proof (dphi_range atan2 dr phi0 kappa dz tanl x0 y0 z0 x0 y0 z0) as Rg.
+  rewrite EP in Hk'. replace (phi0 - phi0 + 2 * IZR k * PI) with (2 * IZR k * PI) in Hk' by ring.
+  assert (K : k = 0%Z).
+  { apply IZR_small. pose proof PI_RGT_0. split; apply (Rmult_lt_reg_r (2 * PI)); lra. }
+  rewrite K in Hk'. simpl in Hk'. lra.
+Qed.
+
+Lemma canonical_off_own_pivot h : canonical kappa h -> off_centre kappa h (h_x h, h_y h, h_z h).
+Proof.
+  intros [C1 _]. destruct h as [dr phi0 dz x0 y0 z0]. unfold off_centre, hcx, hcy, centre_x, centre_y. cbn [h_dr h_phi0 h_x h_y fst snd] in *.
+  assert (Hc : dr + rsigned kappa <> 0).
+  { intro Z. unfold r in C1. rewrite Z in C1. lra. }
+  destruct (Req_dec (cos phi0) 0) as [C|C]; [right|left].
+  - pose proof (sin2_cos2 phi0) as E. unfold Rsqr in E. rewrite C in E. assert (sin phi0 <> 0) by nra. nra.
+  - nra.
+Qed.
+
+Lemma Jmove_own_pivot_is_identity h : canonical kappa h -> off_centre kappa h (h_x h, h_y h, h_z h) ->
+  forall i j, (i < 5)%nat -> (j < 5)%nat -> Jmove h (h_x h, h_y h, h_z h) i j = mid i j.
+Proof.
+  intros Hc Ho i j Hi Hj. pose proof (turn_to_own_pivot h Hc) as T0.
+  pose proof (pivot_identity atan2 A2 kappa tanl Hk h Hc) as Id.
+  assert (ED : h_dr (move atan2 kappa tanl h (h_x h, h_y h, h_z h)) = h_dr h) by (rewrite Id; reflexivity).
+  destruct h as [dr phi0 dz x0 y0 z0]. unfold turn, Jmove in *. cbn [move h_dr h_phi0 h_dz h_x h_y h_z] in *.
+  assert (Hoff : X dr phi0 kappa x0 x0 <> 0 \/ Y dr phi0 kappa y0 y0 <> 0) by exact Ho.
+  destruct (J_identity_when_nothing_moves atan2 dr phi0 kappa dz tanl x0 y0 z0 x0 y0 z0 Hk Hoff T0 ED)
+    as (I00 & I01 & I02 & I10 & I11 & I12 & I30 & I31 & I32 & I34).
+  destruct (J_consts dr phi0 kappa dz tanl x0 y0 z0 x0 y0 z0) as (K03 & K04 & K13 & K14 & K20 & K21 & K22 & K23 & K24 & K33 & K40 & K41 & K42 & K43 & K44).
+  destruct i as [|[|[|[|[|i]]]]]; [| | | | |lia]; (destruct j as [|[|[|[|[|j]]]]]; [| | | | |lia]);
+    cbn [Jcode mid Nat.eqb]; assumption.
+Qed.
+
+Lemma error_there_and_back h p E : canonical kappa h -> off_centre kappa h p -> turn h p <> PI ->
+  forall i j, (i < 5)%nat -> (j < 5)%nat ->
+  JEJt (Jmove (move atan2 kappa tanl h p) (h_x h, h_y h, h_z h)) (JEJt (Jmove h p) E) i j = E i j.
+Proof.
+  intros Hc Ho Hne i j Hi Hj. pose proof (canonical_off_own_pivot h Hc) as Ho0.
+  set (p0 := (h_x h, h_y h, h_z h)) in *.
+  (* the two turning angles are congruent to the direct one (0) and each lies in (-pi, pi]: their sum is 0 unless both are pi *)
+  assert (S0 : turn h p + turn (move atan2 kappa tanl h p) p0 = 0).
+  { pose proof (turn_to_own_pivot h Hc) as T0. fold p0 in T0.
+    destruct (move_centre atan2 A2 kappa tanl Hk h p Ho) as [EX EY].
+    destruct (move_dr_phi_by_centre atan2 kappa tanl Hk (move atan2 kappa tanl h p) h p0 EX EY) as [_ EP].
+    destruct p as [[x1 y1] z1]. subst p0. destruct h as [dr phi0 dz x0 y0 z0]. unfold turn in *.
+    cbn [move h_dr h_phi0 h_dz h_x h_y h_z] in *.
+    set (D01 := dphi atan2 dr phi0 kappa dz tanl x0 y0 z0 x1 y1 z1) in *.
+    set (d1 := ndr dr phi0 kappa dz tanl x0 y0 z0 x1 y1 z1) in *.
+    set (f1 := nphi0 atan2 dr phi0 kappa dz tanl x0 y0 z0 x1 y1 z1) in *.
+    set (z1' := ndz atan2 dr phi0 kappa dz tanl x0 y0 z0 x1 y1 z1) in *.
+    set (D12 := dphi atan2 d1 f1 kappa z1' tanl x1 y1 z1 x0 y0 z0) in *.
+    set (D02 := dphi atan2 dr phi0 kappa dz tanl x0 y0 z0 x0 y0 z0) in *.
+    destruct (dphi_cong atan2 dr phi0 kappa dz tanl x0 y0 z0 x1 y1 z1) as [k1 H1]. fold D01 f1 in H1.
+    destruct (dphi_cong atan2 dr phi0 kappa dz tanl x0 y0 z0 x0 y0 z0) as [k3 H3]. fold D02 in H3.
+    destruct (dphi_cong atan2 d1 f1 kappa z1' tanl x1 y1 z1 x0 y0 z0) as [k2 H2]. fold D12 in H2.
+    pose proof (dphi_range atan2 dr phi0 kappa dz tanl x0 y0 z0 x1 y1 z1) as R1. fold D01 in R1.
+    pose proof (dphi_range atan2 d1 f1 kappa z1' tanl x1 y1 z1 x0 y0 z0) as R2. fold D12 in R2.
+    assert (ES : D01 + D12 = D02 + 2 * IZR (k1 + k2 - k3) * PI).
+    { rewrite minus_IZR, plus_IZR. rewrite H1, H2, H3. rewrite EP. ring. }
+    rewrite T0 in ES. pose proof PI_RGT_0.
+    assert (KK : (k1 + k2 - k3 = 0)%Z).
+    { assert (D01 < PI) by lra.       (* D01 <= pi and D01 <> pi: so D01 + D12 < 2 pi *)
+      apply IZR_small. split; apply (Rmult_lt_reg_r (2 * PI)); lra. }
+    rewrite KK in ES. simpl in ES. lra. }
+  assert (Hs : - PI < turn h p + turn (move atan2 kappa tanl h p) p0 < PI) by (rewrite S0; pose proof PI_RGT_0; lra).
+  rewrite (error_path_independent_2 h p p0 E Ho Hs i j Hi Hj). subst p0.
+  rewrite (JEJt_ext (Jmove h (h_x h, h_y h, h_z h)) (fun a b => mid a b) E (Jmove_own_pivot_is_identity h Hc Ho0) i j Hi Hj).
+  apply JEJt_identity; assumption.
+Qed.
+
 (* ---- any finite sequence of pivots ---- *)
 Fixpoint carry (h : hstate) (ps : list (R * R * R)) (E : nat -> nat -> R) : nat -> nat -> R :=
   match ps with [] => E | p :: rest => carry (move atan2 kappa tanl h p) rest (JEJt (Jmove h p) E) end.
